@@ -124,3 +124,61 @@ pub open spec fn sp_block_header(s: Seq<u8>, header_size: nat) -> Option<BlockHd
         Some((nf, pk, up, off)) => if off <= s.len() { sp_bh_finish(pk, up, s.skip(off as int), nf, header_size) } else { None },
     }
 }
+
+// ---- 4 Index ------------------------------------------------------------------------------------
+pub struct RecS { pub unpadded: nat, pub unpacked: nat }
+
+/// the Record list: for each block, Unpadded Size and Uncompressed Size as multibyte integers
+pub open spec fn sp_index_records(s: Seq<u8>, recs: Seq<RecS>, i: nat) -> Option<nat>
+    decreases recs.len() - i
+{
+    if i >= recs.len() { Some(0nat) }
+    else {
+        match sp_multibyte(s, 0, 0) {
+            None => None,
+            Some((a, n1)) => if a != recs[i as int].unpadded { None } else {
+                match sp_multibyte(s.skip(n1 as int), 0, 0) {
+                    None => None,
+                    Some((b, n2)) => if b != recs[i as int].unpacked { None } else {
+                        match sp_index_records(s.skip((n1 + n2) as int), recs, i + 1) {
+                            None => None,
+                            Some(used) => Some(n1 + n2 + used),
+                        }
+                    },
+                }
+            },
+        }
+    }
+}
+
+/// `s` starts right after the Index Indicator (0x00); `c0` bytes of the Index were read before (1).
+/// Returns the number of bytes of `s` that make up the rest of the Index (fields, padding, CRC32).
+pub open spec fn sp_xz_index(s: Seq<u8>, recs: Seq<RecS>, c0: nat) -> Option<nat> {
+    match sp_multibyte(s, 0, 0) {
+        None => None,
+        Some((n, k0)) => if n != recs.len() { None } else {
+            match sp_index_records(s.skip(k0 as int), recs, 0) {
+                None => None,
+                Some(used) => {
+                    let body = k0 + used;
+                    let pad = sp_pad4(c0 + body);
+                    if s.len() < body + pad + 4 || !all_zero(s.subrange(body as int, (body + pad) as int)) { None }
+                    else if le32(s.skip((body + pad) as int)) != crc32_of(seq![0u8] + s.take((body + pad) as int)) { None }
+                    else { Some(body + pad + 4) }
+                }
+            }
+        },
+    }
+}
+
+pub proof fn lemma_pad4(count: usize)
+    requires count < 0xFFFF_FFFF_FFFF_FFF0,
+    ensures ((((count ^ 0x03) + 1) as usize) & 0x03) == sp_pad4(count as nat), (count ^ 0x03) + 1 <= usize::MAX,
+        ((((count ^ 0x03) + 1) as usize) & 0x03) <= 3,
+{
+    let x: usize = count ^ 0x03;
+    assert(x < 0xFFFF_FFFF_FFFF_FFF4usize) by (bit_vector) requires x == count ^ 0x03, count < 0xFFFF_FFFF_FFFF_FFF0usize;
+    let y: usize = (x + 1) as usize;
+    assert((y & 0x03) == (4 - count % 4) % 4 && (y & 0x03) <= 3) by (bit_vector)
+        requires x == count ^ 0x03, y == x + 1, count < 0xFFFF_FFFF_FFFF_FFF0usize;
+}
